@@ -72,6 +72,11 @@ CLAIMS = {
         text='Static: the pad count is (-N) mod D at all six sites with the right D and the N == 0 special case agrees across sharded init/declaration/update; every list handed to batch (statistics, exponents, paddings, quantized parts, previous preconditioners incl. the _maybe path) has symbolic length N + to_pad with pads appended last and pad entries (identity, exponent 1, padding start 0); batch chunks with slice width == stride == n/D and unbatch re-emits row-major, results are zipped against the N-long per-statistic lists (dropping exactly the pads); axis_index/all_gather/psum name one axis, every batched operand is indexed by the same replica (0 on one device), roots are all_gather-ed then unbatched; no axis-less squeeze. Necessary conditions of C13.',
         note='Trusted: the caller builds the per-statistic lists in one loop (checked syntactically); numpy semantics of stack/split. Undecided: bitwise batch-size invariance of linear algebra; real-mesh execution.',
         design='4/C13'),
+    'C14': dict(
+        technique='effect analysis (purity) over all functions of the optimizer modules with a positive fixture; who-may-mutate table for list parameters; state-container class rule; KIND static-field constancy and layout fixed point (shared with C07); counter rules',
+        text='Static: none of the 207 functions of the optimizer modules declares global/nonlocal, stores attributes outside constructors, stores into or mutates a captured/module-level object or a parameter (exception: `exponents`, created afresh by the only caller), memoises, draws from the global RNG, builds an unseeded generator or reads the clock/environment - so init/update are pure functions of (gradients, state, params, configuration); all state containers are NamedTuples / flax struct dataclasses without mutable class-level defaults; static (non-pytree) fields and the whole layout are identical at init and after any update path; counters start as int32 zeros and advance by one. Necessary conditions of C14.',
+        note='Trusted: syntactic effect recognition with one-level aliasing; jax/optax primitives are pure. Undecided: bit-identity of the msgpack round trip itself.',
+        design='4/C14'),
 }
 
 NOT_BUILT_REASON = 'checker for this property not built yet (build phase in progress; see DESIGN.md section 9)'
